@@ -22,7 +22,11 @@ Inductive c02case :=
         bit 4 anything in the data key space changed, bit 8 V's note/log/lock changed. *)
 | CReq (mode target : nat) (r : rref) (m : nat) (unv : bool) (obs chg : nat)
 | CCover (pkgs : list string) (cov : list (nat * nat))
-| CStable (reads nonempty differ differ_known : nat) (node_changed : bool).
+(* read stability: the GET snapshot of V before and after a later history.  CStable: totals;
+   CStabInst: one data instance; [known] counts differences of exactly the shape of the recorded
+   finding with class [code] (7: ROI partition; 8: tarsupervoxels blobs) *)
+| CStable (reads nonempty differ : nat) (node_changed : bool)
+| CStabInst (code reads differ known : nat).
 
 Definition probe_methods : list string := ["get"; "head"; "post"; "put"; "delete"; "patch"].
 
@@ -70,7 +74,8 @@ Definition model_ok (c : c02case) : bool :=
   match c with
   | CReq mode target r m unv obs chg => model_ok_req mode target r m unv obs
   | CCover pkgs cov => cover_ok pkgs cov
-  | CStable reads nonempty differ differ_known node => Nat.leb 60 nonempty
+  | CStable reads nonempty differ node => Nat.leb 60 nonempty
+  | CStabInst code reads differ known => Nat.leb 1 reads
   end.
 
 (* ---- the property itself as an oracle on the observations (does not use the gate function) ---- *)
@@ -86,7 +91,9 @@ Definition spec_content_addressed : list string := ["blobstore"].   (* not versi
    5 = read-only mode let a request other than GET/HEAD through;
    6 = content readable at V at commit time read back differently after a later history;
    7 = only the ROI partition view differs (it is computed from the instance-wide MinZ/MaxZ
-       properties that writes in any version update): recorded finding *)
+       properties that writes in any version update): recorded finding;
+   8 = tarsupervoxels content differs (all its blobs live at the repo's root version, whatever
+       uuid a request names): recorded finding *)
 Definition spec_req (mode target : nat) (r : rref) (m : nat) (unv : bool) (obs chg : nat) : nat :=
   match route_of r, nth_error probe_methods m with
   | Some rt, Some meth =>
@@ -121,9 +128,11 @@ Definition spec_class (c : c02case) : nat :=
   match c with
   | CReq mode target r m unv obs chg => spec_req mode target r m unv obs chg
   | CCover _ _ => 0
-  | CStable reads nonempty differ differ_known node =>
-    if negb (Nat.eqb differ 0) || node then 6
-    else if negb (Nat.eqb differ_known 0) then 7 else 0
+  | CStable reads nonempty differ node => if negb (Nat.eqb differ 0) || node then 6 else 0
+  | CStabInst code reads differ known =>
+    if negb (Nat.eqb differ 0) then 6
+    else if Nat.eqb known 0 then 0
+    else if Nat.eqb code 7 || Nat.eqb code 8 then code else 6
   end.
 
 Fixpoint classify_from (i : nat) (l : list c02case) : list (nat * nat) :=
